@@ -670,6 +670,49 @@ def check_bitcount_args(run, ix):
     run.stats['Y-R8 unused site contracts'] = sorted('%s:%s' % k for k in set(nonneg.SITE_CONTRACT) - used_sites)
 
 
+def check_from_man_exp_rounding(run, ix):
+    """Y-R10 (third C37 hunt; repair 453101a).  On the gmpy back end `from_man_exp` IS gmpy's `_mpmath_create`
+    (libmpf rebinds the name), whose default rounding is floor; the Python function's default is round_fast, toward
+    zero.  A call that passes a precision and no rounding mode therefore rounds a negative mantissa differently on the
+    two back ends.  Decided over the whole package: every call of `from_man_exp` with a precision (a third positional
+    argument or `prec=`) passes a rounding mode as well (a fourth positional argument or `rnd=`).  Calls without a
+    precision are exact on both."""
+    n = 0
+    rebind = False
+    lm = ix.module('mpmath/libmp/libmpf.py')
+    for name, value, st, g in lm.toplevel_assigns:
+        if name == 'from_man_exp' and '_mpmath_create' in norm(value):
+            rebind = True
+    if not rebind:
+        run.ok('Y-R10', 'from_man_exp is not rebound to a back-end helper')
+        return
+    for rel in sorted(ix.modules):
+        if '/tests/' in rel:
+            continue
+        m = ix.module(rel)
+        for f in m.funcs.values():
+            for c in _walk_own(f.node):
+                if not (isinstance(c, ast.Call) and norm(c.func).split('.')[-1] == 'from_man_exp'):
+                    continue
+                has_prec = len(c.args) >= 3 or any(k.arg == 'prec' for k in c.keywords)
+                if not has_prec:
+                    continue
+                if isinstance(c.args[2] if len(c.args) >= 3 else None, ast.Constant) and c.args[2].value in (None, 0):
+                    continue
+                n += 1
+                has_rnd = len(c.args) >= 4 or any(k.arg == 'rnd' for k in c.keywords)
+                if has_rnd:
+                    run.ok('Y-R10', None)
+                else:
+                    run.fail(F('Y-R10', rel, f.qualname, c,
+                               'a precision and no rounding mode: the Python from_man_exp rounds toward zero by default, '
+                               'gmpy\'s _mpmath_create, which replaces it on that back end, rounds down -- a negative '
+                               'mantissa is rounded differently (mpf_bernoulli(10, 53) differed in its low bits)'))
+    run.stats['from_man_exp calls with a precision'] = n
+    if n < 20:
+        raise AnalysisError('Y-R10: only %d from_man_exp calls with a precision found' % n)
+
+
 def run(run, ix, tier):
     run.explanation = (
         'gmpy2 is not installed, so no run can compare back ends; the source is the only view of the gmpy '
@@ -701,4 +744,6 @@ def run(run, ix, tier):
     run.rule('Y-R9', floor=4, desc='back-end alternatives use the same parameters')
     run.rule('Y-R8', floor=60, desc='every argument of bitcount is non-negative (the back ends disagree on negative integers)')
     check_bitcount_args(run, ix)
+    run.rule('Y-R10', floor=20, desc='from_man_exp gets a rounding mode wherever it gets a precision (the back ends differ in the default)')
+    check_from_man_exp_rounding(run, ix)
     run.stats['backend_dependent_names'] = n
